@@ -159,7 +159,10 @@ def operand_origin_ex(body, op, steps=40):
 
 INDEXED = r"vec::Vec::<T, A>::(insert|split_off)$|slice::<impl \[T\]>::(split_at|split_at_mut)$|str::<impl str>::split_at$|ops::Index(Mut)?<.*>>::index(_mut)?$|string::String::truncate$"
 _BOUNDED_ADAPTORS = [r"Iterator::(zip|take_while|filter|map|skip_while|enumerate|by_ref|peekable|take|skip|rev|copied|cloned|inspect|map_while|filter_map)$",
-                     r"IntoIterator>::into_iter$", r"slice::<impl \[T\]>::iter$", r"Vec::<T, A>::iter$", r"ops::Deref::deref$"]
+                     r"IntoIterator>::into_iter$", r"slice::<impl \[T\]>::iter$", r"Vec::<T, A>::iter$", r"ops::Deref::deref$",
+                     # a collection gathered from a bounded walk over another one is no longer than that one (`?` on a collected
+                     # Result hands on the Vec or returns)
+                     r"Iterator::collect$", r"FromIterator<.*>>::from_iter$", r"ops::Try::branch$"]
 
 
 def _iter_sources(body, local, seen=None, steps=0):
